@@ -207,6 +207,9 @@ async def session(ctx, case):
             if await sess.quiesce() < 0:
                 ctx.violate("stall:after-publication", "loop did not quiesce after the publication", case)
                 return False
+            # longest single message written to each connection during the whole publication phase (the follow-up
+            # update of the same vector carries the long element again)
+            msg_lens = {l.name: longest_element(l.s_writer.data[mark[l]:]) for l in links}
             p = problems()
             if p:
                 ctx.violate(p[0], p[1], case, {"message_chars": msg_lens})
